@@ -12,6 +12,11 @@ compared with the Lean model (makeChunks/chunkName/simulate); then ndl.ndl
 weights for different events_per_temporary_file compared exactly with the
 model. Every call runs in a killable worker with a deadline: a hang is the
 observation Timeout.
+Event files with a third (frequency) column: the pair (n, per) then counts the EXPANDED events
+(line k repeated freq[k] times, zeros included) - chunk windows, the returned count and
+`number_events` are about those; both the conversion stream and the ndl.ndl streams draw such
+files.  `overwrite=True` on a directory that still holds the chunk files of an earlier, longer
+run of the real function: the directory must afterwards hold exactly the new chunks.
 """
 import gen
 import learners as L
@@ -19,6 +24,52 @@ from common import rng
 
 TIMEOUT = 30
 WORKERS = 14
+
+
+def chunk_request(t):
+    return {'op': 'chunk_files', 'events': t['events'], 'per': t['per'], 'policy': t['policy'],
+            'delays': [d // 10 for d in t['delays']]}
+
+
+def chunk_problem(t, impl, model):
+    """None when create_binary_event_files and the model agree on one conversion task"""
+    n, per = len(t['events']), t['per']
+    if 'err' in impl:
+        return 'create_binary_event_files(%d events, per=%d, n_jobs=%d): %s %s %s' % (
+            n, per, t['n_jobs'], impl['err'], impl.get('msg', ''), impl.get('stage', ''))
+    if impl['total'] != model['total'] or model['sim_total'] != n:
+        return 'reported %r events, file has %d (model %d)' % (impl['total'], n, model['total'])
+    got = [(f['name'], f['events']) for f in impl['files']]
+    want = [(f['name'], f['events']) for f in model['files']]
+    if [g[0] for g in got] != [w[0] for w in want]:
+        return 'chunk files %r, model %r' % ([g[0] for g in got], [w[0] for w in want])
+    if got != want:
+        k = next(i for i in range(len(got)) if got[i] != want[i])
+        return 'chunk %s holds %r, model %r' % (got[k][0], got[k][1], want[k][1])
+    if [e for _, evs in got for e in evs] != t['events']:
+        return 'chunks in numeric order do not concatenate to the events of the file'
+    return None
+
+
+def chunk_simplify(pool, driver, t, impl, model, prob):
+    """configuration of a disagreeing conversion task back to defaults, one dimension at a time, while it still
+    disagrees: no delays, one worker, no earlier run in the directory, the same events without a frequency column"""
+    steps = 0
+    cands = [lambda x: dict(x, delays=[0] * len(x['delays']), delay_mode='none') if any(x['delays']) else None,
+             lambda x: dict(x, n_jobs=1) if x['n_jobs'] != 1 else None,
+             lambda x: {k: v for k, v in x.items() if k != 'stale_n'} if x.get('stale_n') else None,
+             lambda x: {k: v for k, v in x.items() if k not in ('freq', 'file_events')} if x.get('freq') is not None else None]
+    for cand in cands:
+        t2 = cand(t)
+        if t2 is None:
+            continue
+        steps += 1
+        impl2 = pool.map([t2])[0]
+        model2 = driver.ask([chunk_request(t2)])[0]
+        prob2 = chunk_problem(t2, impl2, model2)
+        if prob2:
+            t, impl, model, prob = t2, impl2, model2, prob2
+    return t, impl, model, prob, steps
 
 
 def run(rep, pool, driver, tier):
@@ -36,9 +87,27 @@ def run(rep, pool, driver, tier):
         must = [p for p in pairs if p[0] % p[1] == 0][:14] + [(23, 2), (22, 2)]
         pairs = sorted(set(must + r.sample(pairs, 14)))
     tasks = []
+
+    def with_file(t, mk, n, freq_p, stale_p):
+        """draw the two file dimensions of a conversion task: a frequency column whose entries sum to n (the
+        file then has fewer or more lines than n, zeros included) and stale chunk files of an earlier run"""
+        if r.random() < freq_p:
+            t['freq'] = gen.freqs_total(r, n)
+            t['file_events'] = [mk(i) for i in range(len(t['freq']))]
+            t['events'] = gen.expand(t['file_events'], t['freq'])
+        if r.random() < stale_p:
+            t['stale_n'] = n + t['per'] * r.randint(1, 7) + r.randint(0, 1)
+        return t
+
+    def mk_a(i, n_cues=5, n_outs=3):
+        return [[(i + k) % n_cues for k in range(1 + i % 3)], [i % n_outs] if i % 4 else [0, 2]]
+
+    def mk_b(i):
+        return [[(i + k) % 5 for k in range(1 + i % 3)], [i % 3]]
+
     for n, per in pairs:
         n_cues, n_outs = 5, 3
-        es = [[[(i + k) % n_cues for k in range(1 + i % 3)], [i % n_outs] if i % 4 else [0, 2]] for i in range(n)]
+        es = [mk_a(i) for i in range(n)]
         njs = [r.choice([1, 2, 3, 4])] if quick else [1, 2, 4]
         for nj in njs:
             n_jobs_total = n // per + 6
@@ -54,47 +123,68 @@ def run(rep, pool, driver, tier):
                 # a job that holds real events outlives the 1 s polling interval of the submit loop
                 # and the job that closes the pool: it must still be joined, not terminated
                 delays[r.randrange(0, max(1, n // per))] = r.choice([1300, 2200])
-            tasks.append({'op': 'create_chunks', 'events': es, 'n_cues': n_cues, 'n_outs': n_outs, 'per': per,
-                          'n_jobs': nj, 'policy': 'error', 'delays': delays, 'delay_mode': mode})
+            tasks.append(with_file({'op': 'create_chunks', 'events': es, 'n_cues': n_cues, 'n_outs': n_outs, 'per': per,
+                                    'n_jobs': nj, 'policy': 'error', 'delays': delays, 'delay_mode': mode}, mk_a, n, 0.4, 0.3))
     # more chunks than one throttle batch (4*n_jobs) and a job EARLY in the batch that outlives the
     # 1 s poll on the batch's last job: nothing may be skipped or cut short (seeded change C04_b)
-    for n, per, nj, slow in ([(20, 2, 2, 0), (21, 2, 2, 3), (23, 2, 2, 6)] if quick else
-                             [(20, 2, 2, 0), (21, 2, 2, 3), (23, 2, 2, 6), (27, 3, 2, 1), (30, 2, 3, 2), (19, 2, 2, 7), (36, 2, 4, 5)]):
-        es = [[[(i + k) % 5 for k in range(1 + i % 3)], [i % 3]] for i in range(n)]
+    # (33, 2, n_jobs=4): 17 chunks, so that the throttle boundary `ii % (n_jobs*4) == 0` is reached with 4 workers
+    for n, per, nj, slow in ([(20, 2, 2, 0), (21, 2, 2, 3), (23, 2, 2, 6), (33, 2, 4, 5)] if quick else
+                             [(20, 2, 2, 0), (21, 2, 2, 3), (23, 2, 2, 6), (33, 2, 4, 5), (27, 3, 2, 1), (30, 2, 3, 2), (19, 2, 2, 7),
+                              (36, 2, 4, 5), (34, 2, 4, 15), (32, 2, 4, 11)]):
+        es = [mk_b(i) for i in range(n)]
         delays = [0] * (n // per + 6)
         delays[slow] = 2500
-        tasks.append({'op': 'create_chunks', 'events': es, 'n_cues': 5, 'n_outs': 3, 'per': per, 'n_jobs': nj,
-                      'policy': 'error', 'delays': delays, 'delay_mode': 'early_in_batch_very_slow'})
+        tasks.append(with_file({'op': 'create_chunks', 'events': es, 'n_cues': 5, 'n_outs': 3, 'per': per, 'n_jobs': nj,
+                                'policy': 'error', 'delays': delays, 'delay_mode': 'early_in_batch_very_slow'}, mk_b, n, 0.35, 0.0))
+    # overwrite=True on a directory that still holds the chunks of an earlier, longer run: events_0_7 .. events_0_12
+    # (and other ranges crossing the one-digit / two-digit boundary) are stale and must be gone afterwards
+    for n, per, stale_n in ([(14, 2, 26), (5, 2, 23), (6, 3, 40)] if quick else
+                            [(14, 2, 26), (5, 2, 23), (6, 3, 40), (1, 2, 24), (20, 2, 26), (22, 2, 23), (9, 3, 33), (12, 4, 47)]):
+        nj = r.choice([1, 2, 3, 4])
+        t = with_file({'op': 'create_chunks', 'events': [mk_a(i) for i in range(n)], 'n_cues': 5, 'n_outs': 3, 'per': per,
+                       'n_jobs': nj, 'policy': 'error', 'delays': [0] * (n // per + 6), 'delay_mode': 'none'}, mk_a, n, 0.35, 0.0)
+        t['stale_n'] = stale_n
+        tasks.append(t)
     impls = pool.map(tasks)
-    models = driver.ask([{'op': 'chunk_files', 'events': t['events'], 'per': t['per'], 'policy': t['policy'],
-                          'delays': [d // 10 for d in t['delays']]} for t in tasks])
+    models = driver.ask([chunk_request(t) for t in tasks])
+    reported = 0
     for t, impl, model in zip(tasks, impls, models):
         n, per = len(t['events']), t['per']
-        rep.case({'n': n, 'per': per, 'n_jobs': t['n_jobs'], 'delays': t['delays']}, nontrivial=n > per, stream='create_binary_event_files')
+        rep.case({'n': n, 'per': per, 'n_jobs': t['n_jobs'], 'delays': t['delays'], 'freq': t.get('freq'), 'stale_n': t.get('stale_n')},
+                 nontrivial=n > per, stream='create_binary_event_files')
         rep.count('exact_multiple' if n % per == 0 else 'partial_last_chunk')
         if len(model['files']) >= 11:
             rep.count('ge_11_chunks')
         rep.count('delay_mode:' + t['delay_mode'])
-        prob = None
-        if 'err' in impl:
-            prob = 'create_binary_event_files(%d events, per=%d, n_jobs=%d): %s %s' % (n, per, t['n_jobs'], impl['err'], impl.get('msg', ''))
-        elif impl['total'] != model['total'] or model['sim_total'] != n:
-            prob = 'reported %r events, file has %d (model %d)' % (impl['total'], n, model['total'])
-        else:
-            got = [(f['name'], f['events']) for f in impl['files']]
-            want = [(f['name'], f['events']) for f in model['files']]
-            if [g[0] for g in got] != [w[0] for w in want]:
-                prob = 'chunk files %r, model %r' % ([g[0] for g in got], [w[0] for w in want])
-            elif got != want:
-                k = next(i for i in range(len(got)) if got[i] != want[i])
-                prob = 'chunk %s holds %r, model %r' % (got[k][0], got[k][1], want[k][1])
-            elif [e for _, evs in got for e in evs] != t['events']:
-                prob = 'chunks in numeric order do not concatenate to the events of the file'
-        if prob:
-            rep.violation({'what': prob, 'input': {'n_events': n, 'events_per_file': per, 'n_jobs': t['n_jobs'], 'delays_ms': t['delays']},
+        rep.count('create_chunks_n_jobs:%d' % t['n_jobs'])
+        rep.count('create_chunks_freq_column:%s' % ('yes' if t.get('freq') is not None else 'no'))
+        if t.get('freq') is not None:
+            rep.count('create_chunks_freq_column_with_zero' if 0 in t['freq'] else 'create_chunks_freq_column_without_zero')
+            rep.count('create_chunks_freq_column_%s_lines_than_events' % ('fewer' if len(t['freq']) < n else 'same_or_more'))
+        n_stale = len([k for k in range((t.get('stale_n', 0) + per - 1) // per) if k >= len(model['files'])])
+        rep.count('create_chunks_stale_files:%s' % ('0' if not n_stale else '1-5' if n_stale <= 5 else '>=6'))
+        if n_stale and (t['stale_n'] + per - 1) // per >= 11:
+            rep.count('create_chunks_stale_files_two_digit_names')
+        if (n + per - 1) // per >= 4 * t['n_jobs']:
+            rep.count('create_chunks_throttle_boundary_reached:n_jobs=%d' % t['n_jobs'])
+        prob = chunk_problem(t, impl, model)
+        if prob and reported < 3:
+            reported += 1
+            t0 = t
+            t, impl, model, prob, steps = chunk_simplify(pool, driver, t, impl, model, prob)
+            n = len(t['events'])
+            rep.violation({'what': prob, 'input': {'n_events': n, 'events_per_file': per, 'n_jobs': t['n_jobs'], 'delays_ms': t['delays'],
+                                                   'frequency_column': t.get('freq'), 'file_lines': len(t.get('file_events', t['events'])),
+                                                   'events_of_the_earlier_run_into_the_same_directory': t.get('stale_n', 0),
+                                                   'chunk_files_in_directory_before_the_call': impl.get('stale_before')},
                            'observed': {k: impl.get(k) for k in ('err', 'total', 'seconds', 'listdir_order')},
                            'expected': {'total': n, 'files': [f['name'] for f in model['files']]},
                            'python': 'see harness/impl_chunk.py op create_chunks with this task: %r' % {k: v for k, v in t.items() if k != 'events'},
+                           'theorem_or_stream': 'C04 chunks_concat / submit_loop_terminates: create_binary_event_files vs Lean model',
+                           'simplification_steps': steps,
+                           'simplified_from': {k: t0.get(k) for k in ('n_jobs', 'delays', 'freq', 'stale_n')}})
+        elif prob:
+            rep.violation({'what': prob, 'input': {k: v for k, v in t.items() if k != 'events'},
                            'theorem_or_stream': 'C04 chunks_concat / submit_loop_terminates: create_binary_event_files vs Lean model'})
         elif len(model['files']) >= 3:
             rep.sample({'n': n, 'per': per, 'n_jobs': t['n_jobs'], 'files': [f['name'] for f in impl['files']],
@@ -103,15 +193,19 @@ def run(rep, pool, driver, tier):
     cases = []
     for i in range(6 if quick else 60):
         es = gen.events(r, r.randint(3, 12), dup=0.0, late=True)
-        base = dict(gen.params(r), events=es, policy='error', n_jobs=r.choice([1, 2, 4]), per_job=r.choice([1, 3, 10]), stream='ndl_chunk_size')
-        for per in sorted({2, 3, len(es), len(es) - 1 if len(es) > 3 else 2, 10000000}):
-            for m in (['ndl_openmp'] if quick and i % 2 else ['ndl_threading', 'ndl_openmp']):
+        # every second case: a frequency column (0..3, zeros included); chunk sizes then relate to the EXPANDED events
+        freq = gen.freqs(r, len(es)) if i % 2 else None
+        ne = len(gen.expand(es, freq))
+        base = dict(gen.params(r), events=es, freq=freq, policy='error', n_jobs=r.choice([1, 2, 4]), per_job=r.choice([1, 3, 10]), stream='ndl_chunk_size')
+        for per in sorted({2, 3, max(2, ne), ne - 1 if ne > 3 else 2, 10000000}):
+            for m in ([['ndl_openmp'], ['ndl_threading']][(i // 2) % 2] if quick and i % 2 else ['ndl_threading', 'ndl_openmp']):
                 cases.append((dict(base, per_file=per), m))
     # >= 11 chunk files inside ndl.ndl itself: the learner must take them in numeric, not lexicographic order
     for i in range(4 if quick else 40):
         n = r.randint(22, 45)
-        es = gen.events(r, n, dup=0.0, late=True)
-        base = dict(gen.params(r), events=es, policy='error', n_jobs=r.choice([1, 2, 4]), per_job=r.choice([1, 3, 10]), stream='ndl_many_chunks')
+        freq = gen.freqs_total(r, n) if i % 2 else None
+        es = gen.events(r, len(freq) if freq else n, dup=0.0, late=True)
+        base = dict(gen.params(r), events=es, freq=freq, policy='error', n_jobs=r.choice([1, 2, 4]), per_job=r.choice([1, 3, 10]), stream='ndl_many_chunks')
         for per in sorted({2, 3, (n + 10) // 11, n // 11}):
             if per >= 2 and (n + per - 1) // per >= 11:
                 m = ['ndl_threading', 'ndl_openmp'][(i + per) % 2] if quick else None
@@ -119,11 +213,26 @@ def run(rep, pool, driver, tier):
                     cases.append((dict(base, per_file=per), mm))
     impls = pool.map([L.impl_task(c, m) for c, m in cases])
     models = driver.ask([L.model_request(c, m) for c, m in cases])
+    shrunk = 0
     for (c, m), impl, model in zip(cases, impls, models):
-        rep.case({'events': c['events'], 'per_file': c['per_file'], 'm': m}, nontrivial=True, stream=c['stream'])
-        rep.count('ndl_chunks:%s' % ('>=11' if (len(c['events']) + c['per_file'] - 1) // c['per_file'] >= 11 else '<11'))
+        rep.case({'events': c['events'], 'freq': c['freq'], 'per_file': c['per_file'], 'm': m}, nontrivial=True, stream=c['stream'])
+        ne = len(gen.expand(c['events'], c['freq']))
+        many = (ne + c['per_file'] - 1) // c['per_file'] >= 11
+        rep.count('ndl_chunks:%s' % ('>=11' if many else '<11'))
+        rep.count('ndl_freq_column:%s/%s/%s' % ('yes' if c['freq'] is not None else 'no', m,
+                                                '>=11 chunks' if many else 'one chunk' if c['per_file'] >= ne else '2-10 chunks'))
         d = L.compare(impl, model)
         if d is not None:
+            c0, steps = c, 0
+            if shrunk < 2:
+                shrunk += 1
+                c, steps = L.shrink(pool, driver, c, m, budget=24)
+                d2, impl2, model2 = L.evaluate(pool, driver, c, m)
+                if d2 is None:
+                    c, steps = c0, 0
+                else:
+                    d, impl, model = d2, impl2, model2
             rep.violation({'what': d, 'learner': m, 'input': c, 'python': L.python_snippet(c, m),
+                           'shrink_steps': steps, 'shrunk_from_lines': len(c0['events']),
                            'observed': impl.get('cells', impl.get('err')), 'expected': model.get('cells', model.get('err')),
                            'theorem_or_stream': 'C04 learn_chunk_independent: ndl.ndl with events_per_temporary_file=%d' % c['per_file']})
